@@ -217,7 +217,10 @@ func runPlan(c *pbt.Case, p Plan) {
 				if j == len(before)-1 {
 					c.Failf("C09/newest-removed", "step %d: retention removed the newest transaction file %s", i, f.Name)
 				}
-				if p.Backup && f.Max >= hwm {
+				// A file whose last TXID equals the acknowledged mark has itself been
+				// confirmed; LiteFS happens to keep it, but the property only forbids
+				// removing what the service has not confirmed.
+				if p.Backup && f.Max > hwm {
 					c.Failf("C09/unconfirmed-removed", "step %d: retention removed %s (max txid %d) although the backup service has only confirmed up to %d", i, f.Name, f.Max, hwm)
 				}
 				if st.N == 0 {
